@@ -1684,72 +1684,201 @@ theorem isJacoco_take (bs : List Nat) (h : 256 ≤ bs.length) :
   have h2 : ¬ (bs.take 256).length < 256 := by simp; omega
   simp only [isJacoco, h1, h2, if_false, List.take_take, Nat.min_self]
 
+/-! ## attribute order -/
+
+theorem getAttrAux_found (key : Name) (raw : Name) :
+    ∀ (attrs : List Attr) (seen : List Name), (∀ a ∈ attrs, a.1 ∉ seen) →
+      (attrs.map (·.1)).Nodup → (key, raw) ∈ attrs →
+      getAttrAux key seen attrs
+        = match unescape raw with
+          | some s => .ok s
+          | none => .error .parse := by
+  intro attrs
+  induction attrs with
+  | nil => intro _ _ _ h; cases h
+  | cons a attrs ih =>
+    intro seen hs nd hm
+    obtain ⟨k', v'⟩ := a
+    simp only [List.map_cons, List.nodup_cons] at nd
+    have hk' : k' ∉ seen := hs (k', v') (List.mem_cons_self ..)
+    unfold getAttrAux
+    simp only [hk', if_false]
+    by_cases hk : k' = key
+    · subst hk
+      simp only [if_true]
+      rcases List.mem_cons.mp hm with e | m
+      · cases e; rfl
+      · exact absurd (mem_keys_of_mem m) nd.1
+    · simp only [hk, if_false]
+      rcases List.mem_cons.mp hm with e | m
+      · cases e; exact absurd rfl hk
+      · apply ih (k' :: seen) _ nd.2 m
+        intro a ha
+        simp only [List.mem_cons, not_or]
+        refine ⟨?_, hs a (List.mem_cons_of_mem _ ha)⟩
+        intro e
+        exact nd.1 (e ▸ List.mem_map.mpr ⟨a, ha, rfl⟩)
+
+/-- with distinct keys the lookup does not depend on the order of the attributes -/
+theorem getAttr_perm (key : Name) {attrs attrs' : List Attr} (nd : (attrs.map (·.1)).Nodup)
+    (p : attrs.Perm attrs') : getAttr key attrs = getAttr key attrs' := by
+  have nd' : (attrs'.map (·.1)).Nodup := (p.map _).nodup_iff.mp nd
+  by_cases h : ∃ raw, (key, raw) ∈ attrs
+  · obtain ⟨raw, hm⟩ := h
+    unfold getAttr
+    rw [getAttrAux_found key raw attrs [] (by simp) nd hm,
+      getAttrAux_found key raw attrs' [] (by simp) nd' (p.mem_iff.mp hm)]
+  · have h1 : ∀ a ∈ attrs, a.1 ≠ key := by
+      intro a ha e; exact h ⟨a.2, by rw [← e]; exact ha⟩
+    have h2 : ∀ a ∈ attrs', a.1 ≠ key := fun a ha => h1 a (p.mem_iff.mpr ha)
+    unfold getAttr
+    rw [getAttrAux_missing key attrs [] (by simp) nd h1,
+      getAttrAux_missing key attrs' [] (by simp) nd' h2]
+
+/-! ## order of `<class>` / `<sourcefile>` elements inside a package -/
+
+theorem srcFor_length_le (f : Name) (items : List Item)
+    (nd : (items.filterMap Item.srcName?).Nodup) : (items.filterMap (Item.srcFor f)).length ≤ 1 := by
+  induction items with
+  | nil => simp
+  | cons it items ih =>
+    cases it with
+    | cls c =>
+      simp only [List.filterMap_cons, Item.srcName?, Item.srcFor] at nd ⊢
+      exact ih nd
+    | src s =>
+      simp only [List.filterMap_cons, Item.srcName?, List.nodup_cons] at nd
+      by_cases e : s.name = f
+      · have : items.filterMap (Item.srcFor f) = [] :=
+          srcFor_nil_of_not_mem_names _ _ (e ▸ nd.1)
+        simp [Item.srcFor, e, this]
+      · simp only [List.filterMap_cons, Item.srcFor, e, if_false]
+        exact ih nd.2
+
+theorem perm_of_length_le_one {α : Type} {a b : List α} (p : a.Perm b) (h : a.length ≤ 1) :
+    a = b := by
+  match a, b, p.length_eq, h with
+  | [], [], _, _ => rfl
+  | [x], [y], _, _ =>
+    have := p.mem_iff.mp (List.mem_singleton.mpr rfl)
+    simp at this; rw [this]
+
+theorem linesFor_perm {items items' : List Item} (p : items.Perm items')
+    (nd : (items.filterMap Item.srcName?).Nodup) (f : Name) :
+    linesFor items f = linesFor items' f := by
+  unfold linesFor
+  rw [perm_of_length_le_one (p.filterMap (Item.srcFor f)) (srcFor_length_le f items nd)]
+
+theorem mem_fileNames_perm {items items' : List Item} (p : items.Perm items') (f : Name) :
+    f ∈ fileNames items ↔ f ∈ fileNames items' := by
+  rw [mem_fileNames, mem_fileNames]
+  constructor
+  · rintro ⟨it, h, e⟩; exact ⟨it, p.mem_iff.mp h, e⟩
+  · rintro ⟨it, h, e⟩; exact ⟨it, p.mem_iff.mpr h, e⟩
+
+/-! ## error kinds -/
+
+theorem parse_package_without_name (n : Name) (a : List Attr) (rest : List XmlEvent) (fuel : Nat)
+    (hn : localName n = sPackage) (nd : nodupKeys a = true) (h : hasNoKey a sName = true) :
+    parse (.start n a :: rest) (fuel + 1) = .err .invalidRecord := by
+  simp [parse, expand, reportLoop, hn, getAttr_of_hasNoKey nd h]
+
+/-! ## reading the denotation entry by entry -/
+
+theorem get?_of_mem_nodup {κ α : Type} [DecidableEq κ] {m : List (κ × α)} {k : κ} {v : α}
+    (nd : (m.map (·.1)).Nodup) (h : (k, v) ∈ m) : get? m k = some v := by
+  induction m with
+  | nil => cases h
+  | cons a m ih =>
+    obtain ⟨k', v'⟩ := a
+    simp only [List.map_cons, List.nodup_cons] at nd
+    rcases List.mem_cons.mp h with e | hm
+    · cases e; simp
+    · have : k' ≠ k := fun e => nd.1 (e ▸ List.mem_map.mpr ⟨(k, v), hm, rfl⟩)
+      simp only [get?_cons, this, if_false]
+      exact ih nd.2 hm
+
+theorem get?_none_of_not_mem {κ α : Type} [DecidableEq κ] {m : List (κ × α)} {k : κ}
+    (h : k ∉ m.map (·.1)) : get? m k = none := (get?_eq_none_iff m k).mpr h
+
+theorem line_eq_of_nr_eq {ls : List Line} (nd : (ls.map (·.nr)).Nodup) {a b : Line}
+    (ha : a ∈ ls) (hb : b ∈ ls) (e : a.nr = b.nr) : a = b := by
+  induction ls with
+  | nil => cases ha
+  | cons x ls ih =>
+    simp only [List.map_cons, List.nodup_cons] at nd
+    rcases List.mem_cons.mp ha with r2 | r2 <;> rcases List.mem_cons.mp hb with r1 | r1
+    · rw [r1, r2]
+    · subst r2; exact absurd (List.mem_map.mpr ⟨b, r1, e.symm⟩) nd.1
+    · subst r1; exact absurd (List.mem_map.mpr ⟨a, r2, e⟩) nd.1
+    · exact ih nd.2 r2 r1
+
+theorem line_meaning (ls : List Line) (nd : (ls.map (·.nr)).Nodup) (l : Line) (hl : l ∈ ls) :
+    if l.isBranch then
+      get? (branchCov ls) l.nr = some (List.replicate l.cb true ++ List.replicate l.mb false)
+        ∧ get? (lineCov ls) l.nr = none
+    else
+      get? (lineCov ls) l.nr = some (if l.ci > 0 then 1 else 0)
+        ∧ get? (branchCov ls) l.nr = none := by
+  have n1 : ((lineCov ls).map (·.1)).Nodup := nd.sublist (lineCov_keys_sublist ls)
+  have n2 : ((branchCov ls).map (·.1)).Nodup := nd.sublist (branchCov_keys_sublist ls)
+  -- a key of lineCov comes from a statement line, a key of branchCov from a branch line
+  have k1 : ∀ l' ∈ ls, l'.isBranch = true → l'.nr ∉ (lineCov ls).map (·.1) := by
+    intro l' hl' hb hm
+    simp only [lineCov, List.mem_map, List.mem_filterMap] at hm
+    obtain ⟨⟨nr, c⟩, ⟨l2, hl2, e2⟩, e⟩ := hm
+    by_cases hb2 : l2.isBranch = true
+    · simp [hb2] at e2
+    · simp only [hb2] at e2
+      simp only [Bool.false_eq_true, if_false, Option.some.injEq, Prod.mk.injEq] at e2
+      simp only at e
+      have : l2.nr = l'.nr := by rw [e2.1]; exact e
+      have : l2 = l' := line_eq_of_nr_eq nd hl2 hl' this
+      subst this; exact hb2 hb
+  have k2 : ∀ l' ∈ ls, l'.isBranch = false → l'.nr ∉ (branchCov ls).map (·.1) := by
+    intro l' hl' hb hm
+    simp only [branchCov, List.mem_map, List.mem_filterMap] at hm
+    obtain ⟨⟨nr, c⟩, ⟨l2, hl2, e2⟩, e⟩ := hm
+    by_cases hb2 : l2.isBranch = true
+    · simp only [hb2, if_true, Option.some.injEq, Prod.mk.injEq] at e2
+      simp only at e
+      have : l2.nr = l'.nr := by rw [e2.1]; exact e
+      have : l2 = l' := line_eq_of_nr_eq nd hl2 hl' this
+      subst this; simp [hb] at hb2
+    · simp [hb2] at e2
+  by_cases hb : l.isBranch = true
+  · simp only [hb, if_true]
+    refine ⟨get?_of_mem_nodup n2 ?_, get?_none_of_not_mem (k1 l hl hb)⟩
+    simp only [branchCov, List.mem_filterMap]
+    exact ⟨l, hl, by simp [hb]⟩
+  · have hb' : l.isBranch = false := by simpa using hb
+    simp only [hb', Bool.false_eq_true, if_false]
+    refine ⟨get?_of_mem_nodup n1 ?_, get?_none_of_not_mem (k2 l hl hb')⟩
+    simp only [lineCov, List.mem_filterMap]
+    exact ⟨l, hl, by simp [hb']⟩
+
+theorem method_meaning (items : List Item) (c : Class) (m : Method) (hc : Item.cls c ∈ items)
+    (hm : m ∈ c.methods)
+    (nd : ((items.flatMap (Item.funsFor c.file)).map (·.1)).Nodup) :
+    get? (covFor items c.file).functions (c.simple ++ cHash :: m.name)
+      = some ⟨m.line, m.executed⟩ := by
+  apply get?_of_mem_nodup nd
+  simp only [List.mem_flatMap]
+  refine ⟨.cls c, hc, ?_⟩
+  simp only [Item.funsFor, if_true, Class.funs, List.mem_map]
+  exact ⟨m, hm, rfl⟩
+
 /-! ## closed examples used by Props/C10.lean -/
 
 /-- a noisy serialisation: declaration, doctype, `<report>`, session info, a `<group>` wrapper,
 counters of other types, text, shuffled and extra attributes, `&lt;init&gt;`, `&#53;`, `+1`, `005`,
 a prefixed `j:line`, the source file before its classes, a class without `sourcefilename` -/
 def exNoisy : XReport :=
-  [.junk (.other),
-   .junk (.other),
-   .junk (.start [114, 101, 112, 111, 114, 116] [([110, 97, 109, 101], [100, 101, 109, 111])]),
-   .junk (.empty [115, 101, 115, 115, 105, 111, 110, 105, 110, 102, 111] [([105, 100], [104, 45, 49]), ([115, 116, 97, 114, 116], [49]), ([100, 117, 109, 112], [50])]),
-   .junk (.start [103, 114, 111, 117, 112] [([110, 97, 109, 101], [103])]),
-   .pkg { name := [111, 114, 103, 47, 101, 120], tag := [112, 97, 99, 107, 97, 103, 101], attrs := [([110, 97, 109, 101], [111, 114, 103, 47, 101, 120])], selfClose := false,
-    body := [.src { name := [80, 101, 114, 115, 111, 110, 46, 106, 97, 118, 97], tag := [115, 111, 117, 114, 99, 101, 102, 105, 108, 101], attrs := [([110, 97, 109, 101], [80, 101, 114, 115, 111, 110, 46, 106, 97, 118, 97])], selfClose := false,
-      body := [.junk (.text),
-         .line ⟨3, 0, 2, 0, 0⟩ [108, 105, 110, 101] [([110, 114], [51]), ([109, 105], [48]), ([99, 105], [50]), ([109, 98], [48]), ([99, 98], [48])] true,
-         .junk (.text),
-         .line ⟨5, 1, 4, 1, 2⟩ [106, 58, 108, 105, 110, 101] [([99, 98], [50]), ([109, 98], [43, 49]), ([120], [121]), ([99, 105], [52]), ([109, 105], [49]), ([110, 114], [48, 48, 53])] false,
-         .line ⟨9, 3, 0, 0, 0⟩ [108, 105, 110, 101] [([99, 105], [48]), ([110, 114], [57]), ([99, 98], [48]), ([109, 98], [48, 48])] true,
-         .junk (.empty [99, 111, 117, 110, 116, 101, 114] [([116, 121, 112, 101], [76, 73, 78, 69]), ([109, 105, 115, 115, 101, 100], [49]), ([99, 111, 118, 101, 114, 101, 100], [50])]),
-         .junk (.other)] },
-       .junk (.text),
-       .cls { fq := [111, 114, 103, 47, 101, 120, 47, 80, 101, 114, 115, 111, 110, 36, 65, 103, 101], sourcefile := some [80, 101, 114, 115, 111, 110, 46, 106, 97, 118, 97], tag := [99, 108, 97, 115, 115], selfClose := false,
-      attrs := [([115, 111, 117, 114, 99, 101, 102, 105, 108, 101, 110, 97, 109, 101], [80, 101, 114, 115, 111, 110, 46, 106, 97, 118, 97]), ([110, 97, 109, 101], [111, 114, 103, 47, 101, 120, 47, 80, 101, 114, 115, 111, 110, 36, 65, 103, 101])],
-      body := [.junk (.text),
-         .method { name := [60, 105, 110, 105, 116, 62], line := 3, tag := [109, 101, 116, 104, 111, 100], selfClose := false,
-          attrs := [([100, 101, 115, 99], [40, 41, 86]), ([108, 105, 110, 101], [51]), ([110, 97, 109, 101], [38, 108, 116, 59, 105, 110, 105, 116, 38, 103, 116, 59])],
-          body := [.otherCounter [73, 78, 83, 84, 82, 85, 67, 84, 73, 79, 78] [99, 111, 117, 110, 116, 101, 114] [([116, 121, 112, 101], [73, 78, 83, 84, 82, 85, 67, 84, 73, 79, 78]), ([109, 105, 115, 115, 101, 100], [48]), ([99, 111, 118, 101, 114, 101, 100], [52])] true,
-             .junk (.text),
-             .counter 1 [99, 111, 117, 110, 116, 101, 114] [([99, 111, 118, 101, 114, 101, 100], [49]), ([109, 105, 115, 115, 101, 100], [48]), ([116, 121, 112, 101], [77, 69, 84, 72, 79, 68])] false] },
-         .method { name := [103, 101, 116], line := 5, tag := [109, 101, 116, 104, 111, 100], selfClose := false,
-          attrs := [([110, 97, 109, 101], [103, 101, 116]), ([108, 105, 110, 101], [38, 35, 53, 51, 59])],
-          body := [.counter 0 [99, 111, 117, 110, 116, 101, 114] [([116, 121, 112, 101], [77, 69, 84, 72, 79, 68]), ([109, 105, 115, 115, 101, 100], [49]), ([99, 111, 118, 101, 114, 101, 100], [48])] true] },
-         .junk (.empty [99, 111, 117, 110, 116, 101, 114] [([116, 121, 112, 101], [77, 69, 84, 72, 79, 68]), ([109, 105, 115, 115, 101, 100], [49]), ([99, 111, 118, 101, 114, 101, 100], [49])])] },
-       .cls { fq := [111, 114, 103, 47, 101, 120, 47, 80, 101, 114, 115, 111, 110], sourcefile := none, tag := [99, 108, 97, 115, 115], selfClose := false,
-      attrs := [([110, 97, 109, 101], [111, 114, 103, 47, 101, 120, 47, 80, 101, 114, 115, 111, 110])],
-      body := [.method { name := [109, 97, 105, 110], line := 9, tag := [109, 101, 116, 104, 111, 100], selfClose := true,
-          attrs := [([110, 97, 109, 101], [109, 97, 105, 110]), ([100, 101, 115, 99], [40, 91, 76, 106, 97, 118, 97, 47, 108, 97, 110, 103, 47, 83, 116, 114, 105, 110, 103, 59, 41, 86]), ([108, 105, 110, 101], [57])], body := [] }] },
-       .junk (.empty [99, 111, 117, 110, 116, 101, 114] [([116, 121, 112, 101], [67, 76, 65, 83, 83]), ([109, 105, 115, 115, 101, 100], [48]), ([99, 111, 118, 101, 114, 101, 100], [50])])] },
-   .junk (.end_ [103, 114, 111, 117, 112]),
-   .junk (.text),
-   .pkg { name := [], tag := [112, 97, 99, 107, 97, 103, 101], attrs := [([110, 97, 109, 101], [])], selfClose := false,
-    body := [.src { name := [84, 46, 106, 97, 118, 97], tag := [115, 111, 117, 114, 99, 101, 102, 105, 108, 101], attrs := [([110, 97, 109, 101], [84, 46, 106, 97, 118, 97])], selfClose := true, body := [] }] },
-   .junk (.empty [99, 111, 117, 110, 116, 101, 114] [([116, 121, 112, 101], [73, 78, 83, 84, 82, 85, 67, 84, 73, 79, 78]), ([109, 105, 115, 115, 101, 100], [51]), ([99, 111, 118, 101, 114, 101, 100], [57])]),
-   .junk (.end_ [114, 101, 112, 111, 114, 116])]
+  [.junk (.other), .junk (.other), .junk (.start [114, 101, 112, 111, 114, 116] [([110, 97, 109, 101], [100, 101, 109, 111])]), .junk (.empty [115, 101, 115, 115, 105, 111, 110, 105, 110, 102, 111] [([105, 100], [104, 45, 49]), ([115, 116, 97, 114, 116], [49]), ([100, 117, 109, 112], [50])]), .junk (.start [103, 114, 111, 117, 112] [([110, 97, 109, 101], [103])]), .pkg { name := [111, 114, 103, 47, 101, 120], tag := [112, 97, 99, 107, 97, 103, 101], attrs := [([110, 97, 109, 101], [111, 114, 103, 47, 101, 120])], selfClose := false, body := [.src { name := [80, 101, 114, 115, 111, 110, 46, 106, 97, 118, 97], tag := [115, 111, 117, 114, 99, 101, 102, 105, 108, 101], attrs := [([110, 97, 109, 101], [80, 101, 114, 115, 111, 110, 46, 106, 97, 118, 97])], selfClose := false, body := [.junk (.text), .line ⟨3, 0, 2, 0, 0⟩ [108, 105, 110, 101] [([110, 114], [51]), ([109, 105], [48]), ([99, 105], [50]), ([109, 98], [48]), ([99, 98], [48])] true, .junk (.text), .line ⟨5, 1, 4, 1, 2⟩ [106, 58, 108, 105, 110, 101] [([99, 98], [50]), ([109, 98], [43, 49]), ([120], [121]), ([99, 105], [52]), ([109, 105], [49]), ([110, 114], [48, 48, 53])] false, .line ⟨9, 3, 0, 0, 0⟩ [108, 105, 110, 101] [([99, 105], [48]), ([110, 114], [57]), ([99, 98], [48]), ([109, 98], [48, 48])] true, .junk (.empty [99, 111, 117, 110, 116, 101, 114] [([116, 121, 112, 101], [76, 73, 78, 69]), ([109, 105, 115, 115, 101, 100], [49]), ([99, 111, 118, 101, 114, 101, 100], [50])]), .junk (.other)] }, .junk (.text), .cls { fq := [111, 114, 103, 47, 101, 120, 47, 80, 101, 114, 115, 111, 110, 36, 65, 103, 101], sourcefile := some [80, 101, 114, 115, 111, 110, 46, 106, 97, 118, 97], tag := [99, 108, 97, 115, 115], selfClose := false, attrs := [([115, 111, 117, 114, 99, 101, 102, 105, 108, 101, 110, 97, 109, 101], [80, 101, 114, 115, 111, 110, 46, 106, 97, 118, 97]), ([110, 97, 109, 101], [111, 114, 103, 47, 101, 120, 47, 80, 101, 114, 115, 111, 110, 36, 65, 103, 101])], body := [.junk (.text), .method { name := [60, 105, 110, 105, 116, 62], line := 3, tag := [109, 101, 116, 104, 111, 100], selfClose := false, attrs := [([100, 101, 115, 99], [40, 41, 86]), ([108, 105, 110, 101], [51]), ([110, 97, 109, 101], [38, 108, 116, 59, 105, 110, 105, 116, 38, 103, 116, 59])], body := [.otherCounter [73, 78, 83, 84, 82, 85, 67, 84, 73, 79, 78] [99, 111, 117, 110, 116, 101, 114] [([116, 121, 112, 101], [73, 78, 83, 84, 82, 85, 67, 84, 73, 79, 78]), ([109, 105, 115, 115, 101, 100], [48]), ([99, 111, 118, 101, 114, 101, 100], [52])] true, .junk (.text), .counter 1 [99, 111, 117, 110, 116, 101, 114] [([99, 111, 118, 101, 114, 101, 100], [49]), ([109, 105, 115, 115, 101, 100], [48]), ([116, 121, 112, 101], [77, 69, 84, 72, 79, 68])] false] }, .method { name := [103, 101, 116], line := 5, tag := [109, 101, 116, 104, 111, 100], selfClose := false, attrs := [([110, 97, 109, 101], [103, 101, 116]), ([108, 105, 110, 101], [38, 35, 53, 51, 59])], body := [.counter 0 [99, 111, 117, 110, 116, 101, 114] [([116, 121, 112, 101], [77, 69, 84, 72, 79, 68]), ([109, 105, 115, 115, 101, 100], [49]), ([99, 111, 118, 101, 114, 101, 100], [48])] true] }, .junk (.empty [99, 111, 117, 110, 116, 101, 114] [([116, 121, 112, 101], [77, 69, 84, 72, 79, 68]), ([109, 105, 115, 115, 101, 100], [49]), ([99, 111, 118, 101, 114, 101, 100], [49])])] }, .cls { fq := [111, 114, 103, 47, 101, 120, 47, 80, 101, 114, 115, 111, 110], sourcefile := none, tag := [99, 108, 97, 115, 115], selfClose := false, attrs := [([110, 97, 109, 101], [111, 114, 103, 47, 101, 120, 47, 80, 101, 114, 115, 111, 110])], body := [.method { name := [109, 97, 105, 110], line := 9, tag := [109, 101, 116, 104, 111, 100], selfClose := true, attrs := [([110, 97, 109, 101], [109, 97, 105, 110]), ([100, 101, 115, 99], [40, 91, 76, 106, 97, 118, 97, 47, 108, 97, 110, 103, 47, 83, 116, 114, 105, 110, 103, 59, 41, 86]), ([108, 105, 110, 101], [57])], body := [] }] }, .junk (.empty [99, 111, 117, 110, 116, 101, 114] [([116, 121, 112, 101], [67, 76, 65, 83, 83]), ([109, 105, 115, 115, 101, 100], [48]), ([99, 111, 118, 101, 114, 101, 100], [50])])] }, .junk (.end_ [103, 114, 111, 117, 112]), .junk (.text), .pkg { name := [], tag := [112, 97, 99, 107, 97, 103, 101], attrs := [([110, 97, 109, 101], [])], selfClose := false, body := [.src { name := [84, 46, 106, 97, 118, 97], tag := [115, 111, 117, 114, 99, 101, 102, 105, 108, 101], attrs := [([110, 97, 109, 101], [84, 46, 106, 97, 118, 97])], selfClose := true, body := [] }] }, .junk (.empty [99, 111, 117, 110, 116, 101, 114] [([116, 121, 112, 101], [73, 78, 83, 84, 82, 85, 67, 84, 73, 79, 78]), ([109, 105, 115, 115, 101, 100], [51]), ([99, 111, 118, 101, 114, 101, 100], [57])]), .junk (.end_ [114, 101, 112, 111, 114, 116])]
 
 /-- the plain serialisation of the same report -/
 def exPlain : XReport :=
-  [.pkg { name := [111, 114, 103, 47, 101, 120], tag := [112, 97, 99, 107, 97, 103, 101], attrs := [([110, 97, 109, 101], [111, 114, 103, 47, 101, 120])], selfClose := false,
-    body := [.src { name := [80, 101, 114, 115, 111, 110, 46, 106, 97, 118, 97], tag := [115, 111, 117, 114, 99, 101, 102, 105, 108, 101], attrs := [([110, 97, 109, 101], [80, 101, 114, 115, 111, 110, 46, 106, 97, 118, 97])], selfClose := false,
-      body := [.line ⟨3, 0, 2, 0, 0⟩ [108, 105, 110, 101] [([110, 114], [51]), ([109, 105], [48]), ([99, 105], [50]), ([109, 98], [48]), ([99, 98], [48])] true,
-         .line ⟨5, 1, 4, 1, 2⟩ [108, 105, 110, 101] [([110, 114], [53]), ([109, 105], [49]), ([99, 105], [52]), ([109, 98], [49]), ([99, 98], [50])] true,
-         .line ⟨9, 3, 0, 0, 0⟩ [108, 105, 110, 101] [([110, 114], [57]), ([109, 105], [51]), ([99, 105], [48]), ([109, 98], [48]), ([99, 98], [48])] true] },
-       .cls { fq := [111, 114, 103, 47, 101, 120, 47, 80, 101, 114, 115, 111, 110, 36, 65, 103, 101], sourcefile := some [80, 101, 114, 115, 111, 110, 46, 106, 97, 118, 97], tag := [99, 108, 97, 115, 115], selfClose := false,
-      attrs := [([110, 97, 109, 101], [111, 114, 103, 47, 101, 120, 47, 80, 101, 114, 115, 111, 110, 36, 65, 103, 101]), ([115, 111, 117, 114, 99, 101, 102, 105, 108, 101, 110, 97, 109, 101], [80, 101, 114, 115, 111, 110, 46, 106, 97, 118, 97])],
-      body := [.method { name := [60, 105, 110, 105, 116, 62], line := 3, tag := [109, 101, 116, 104, 111, 100], selfClose := false,
-          attrs := [([110, 97, 109, 101], [38, 108, 116, 59, 105, 110, 105, 116, 38, 103, 116, 59]), ([108, 105, 110, 101], [51])],
-          body := [.counter 1 [99, 111, 117, 110, 116, 101, 114] [([116, 121, 112, 101], [77, 69, 84, 72, 79, 68]), ([99, 111, 118, 101, 114, 101, 100], [49])] true] },
-         .method { name := [103, 101, 116], line := 5, tag := [109, 101, 116, 104, 111, 100], selfClose := false,
-          attrs := [([110, 97, 109, 101], [103, 101, 116]), ([108, 105, 110, 101], [53])],
-          body := [.counter 0 [99, 111, 117, 110, 116, 101, 114] [([116, 121, 112, 101], [77, 69, 84, 72, 79, 68]), ([99, 111, 118, 101, 114, 101, 100], [48])] true] }] },
-       .cls { fq := [111, 114, 103, 47, 101, 120, 47, 80, 101, 114, 115, 111, 110], sourcefile := none, tag := [99, 108, 97, 115, 115], selfClose := false,
-      attrs := [([110, 97, 109, 101], [111, 114, 103, 47, 101, 120, 47, 80, 101, 114, 115, 111, 110])],
-      body := [.method { name := [109, 97, 105, 110], line := 9, tag := [109, 101, 116, 104, 111, 100], selfClose := false,
-          attrs := [([110, 97, 109, 101], [109, 97, 105, 110]), ([108, 105, 110, 101], [57])], body := [] }] }] },
-   .pkg { name := [], tag := [112, 97, 99, 107, 97, 103, 101], attrs := [([110, 97, 109, 101], [])], selfClose := false,
-    body := [.src { name := [84, 46, 106, 97, 118, 97], tag := [115, 111, 117, 114, 99, 101, 102, 105, 108, 101], attrs := [([110, 97, 109, 101], [84, 46, 106, 97, 118, 97])], selfClose := false, body := [] }] }]
+  [.pkg { name := [111, 114, 103, 47, 101, 120], tag := [112, 97, 99, 107, 97, 103, 101], attrs := [([110, 97, 109, 101], [111, 114, 103, 47, 101, 120])], selfClose := false, body := [.src { name := [80, 101, 114, 115, 111, 110, 46, 106, 97, 118, 97], tag := [115, 111, 117, 114, 99, 101, 102, 105, 108, 101], attrs := [([110, 97, 109, 101], [80, 101, 114, 115, 111, 110, 46, 106, 97, 118, 97])], selfClose := false, body := [.line ⟨3, 0, 2, 0, 0⟩ [108, 105, 110, 101] [([110, 114], [51]), ([109, 105], [48]), ([99, 105], [50]), ([109, 98], [48]), ([99, 98], [48])] true, .line ⟨5, 1, 4, 1, 2⟩ [108, 105, 110, 101] [([110, 114], [53]), ([109, 105], [49]), ([99, 105], [52]), ([109, 98], [49]), ([99, 98], [50])] true, .line ⟨9, 3, 0, 0, 0⟩ [108, 105, 110, 101] [([110, 114], [57]), ([109, 105], [51]), ([99, 105], [48]), ([109, 98], [48]), ([99, 98], [48])] true] }, .cls { fq := [111, 114, 103, 47, 101, 120, 47, 80, 101, 114, 115, 111, 110, 36, 65, 103, 101], sourcefile := some [80, 101, 114, 115, 111, 110, 46, 106, 97, 118, 97], tag := [99, 108, 97, 115, 115], selfClose := false, attrs := [([110, 97, 109, 101], [111, 114, 103, 47, 101, 120, 47, 80, 101, 114, 115, 111, 110, 36, 65, 103, 101]), ([115, 111, 117, 114, 99, 101, 102, 105, 108, 101, 110, 97, 109, 101], [80, 101, 114, 115, 111, 110, 46, 106, 97, 118, 97])], body := [.method { name := [60, 105, 110, 105, 116, 62], line := 3, tag := [109, 101, 116, 104, 111, 100], selfClose := false, attrs := [([110, 97, 109, 101], [38, 108, 116, 59, 105, 110, 105, 116, 38, 103, 116, 59]), ([108, 105, 110, 101], [51])], body := [.counter 1 [99, 111, 117, 110, 116, 101, 114] [([116, 121, 112, 101], [77, 69, 84, 72, 79, 68]), ([99, 111, 118, 101, 114, 101, 100], [49])] true] }, .method { name := [103, 101, 116], line := 5, tag := [109, 101, 116, 104, 111, 100], selfClose := false, attrs := [([110, 97, 109, 101], [103, 101, 116]), ([108, 105, 110, 101], [53])], body := [.counter 0 [99, 111, 117, 110, 116, 101, 114] [([116, 121, 112, 101], [77, 69, 84, 72, 79, 68]), ([99, 111, 118, 101, 114, 101, 100], [48])] true] }] }, .cls { fq := [111, 114, 103, 47, 101, 120, 47, 80, 101, 114, 115, 111, 110], sourcefile := none, tag := [99, 108, 97, 115, 115], selfClose := false, attrs := [([110, 97, 109, 101], [111, 114, 103, 47, 101, 120, 47, 80, 101, 114, 115, 111, 110])], body := [.method { name := [109, 97, 105, 110], line := 9, tag := [109, 101, 116, 104, 111, 100], selfClose := false, attrs := [([110, 97, 109, 101], [109, 97, 105, 110]), ([108, 105, 110, 101], [57])], body := [] }] }] }, .pkg { name := [], tag := [112, 97, 99, 107, 97, 103, 101], attrs := [([110, 97, 109, 101], [])], selfClose := false, body := [.src { name := [84, 46, 106, 97, 118, 97], tag := [115, 111, 117, 114, 99, 101, 102, 105, 108, 101], attrs := [([110, 97, 109, 101], [84, 46, 106, 97, 118, 97])], selfClose := false, body := [] }] }]
 
 def exExpected : List (Name × Cov) :=
   [([111, 114, 103, 47, 101, 120, 47, 80, 101, 114, 115, 111, 110, 46, 106, 97, 118, 97],
@@ -1765,5 +1894,51 @@ def exTruncated : List XmlEvent :=
    .start [99, 108, 97, 115, 115] [([110, 97, 109, 101], [112, 47, 65])],
    .start [109, 101, 116, 104, 111, 100] [([110, 97, 109, 101], [109]), ([108, 105, 110, 101], [49])]]
 
+
+theorem exTruncated_diverges (fuel : Nat) : parse exTruncated fuel = .diverge := by
+  have h1 : localName [114, 101, 112, 111, 114, 116] ≠ sPackage := by decide
+  have h2 : localName [112, 97, 99, 107, 97, 103, 101] = sPackage := by decide
+  have h3 : localName [99, 108, 97, 115, 115] = sClass := by decide
+  have h4 : localName [109, 101, 116, 104, 111, 100] = sMethod := by decide
+  have g1 : getAttr sName [([110, 97, 109, 101], [112])] = .ok [112] := by rfl
+  have g2 : getAttr sName [([110, 97, 109, 101], [112, 47, 65])] = .ok [112, 47, 65] := by rfl
+  have g3 : getAttr sName [([110, 97, 109, 101], [109]), ([108, 105, 110, 101], [49])]
+      = .ok [109] := by rfl
+  have g4 : getAttr sLine [([110, 97, 109, 101], [109]), ([108, 105, 110, 101], [49])]
+      = .ok [49] := by rfl
+  have g5 : parseUnsigned U32MAX [49] = some 1 := by decide
+  rcases fuel with _ | _ | _ | _ | f
+  · rfl
+  · rfl
+  · rfl
+  · rfl
+  · simp only [parse, exTruncated, expand, reportLoop, h1, h2, if_false, if_true, g1, packageLoop,
+      h3, g2, classLoop, h4, g3, g4, g5, methodLoop_eof]
+
+theorem lineAttrs_error_kind : ∀ (attrs : List Attr) (seen : List Name) (acc : LineAcc)
+    (k : ErrKind), lineAttrs seen attrs acc = .error k → k = .parse := by
+  intro attrs
+  induction attrs with
+  | nil => intro seen acc k h; simp [lineAttrs] at h
+  | cons a attrs ih =>
+    intro seen acc k h
+    obtain ⟨k', v'⟩ := a
+    unfold lineAttrs at h
+    repeat' split at h
+    all_goals first
+      | exact ih _ _ _ h
+      | (injection h with h; exact h.symm)
+
+theorem commitLine_error_kind (acc : SrcAcc) (la : LineAcc) (k : ErrKind)
+    (h : commitLine acc la = .error k) :
+    k = .invalidRecord ∧ (la.ci = none ∨ la.cb = none ∨ la.mb = none ∨ la.nr = none) := by
+  unfold commitLine at h
+  split at h
+  · split at h <;> cases h
+  · rename_i hnone
+    injection h with h
+    refine ⟨h.symm, ?_⟩
+    cases h1 : la.ci <;> cases h2 : la.cb <;> cases h3 : la.mb <;> cases h4 : la.nr <;> simp_all
+    exact hnone _ _ _ _ rfl rfl rfl rfl
 
 end Grcov.Jacoco
